@@ -36,14 +36,25 @@ def srv_par(ctx, thorough):
         steps = req(1) + req(3) + [finish(1, n=5, hdrs_=[["x-fill", "Z" * n]]), finish(3, n=20000, kind='stream', hdrs_=[["x-fill", "Y" * (n // 2)]])]
         steps += req(5) + [{"op": "burst", "steps": [finish(5, n=1, hdrs_=[["x-fill", "Z" * n]]), {"op": "ping", "n": k}, {"op": "settings", "pairs": [[1, 0]]}]}]
         out.append({'tag': 'bighdr', 'cfg': {'maxConc': 4}, 'steps': steps})
+    # a response going out while a request body comes in: both directions draw DATA frames from the same pool at once.
+    # The response is first held back by the windows; the burst that opens them carries the upload's DATA frames too.
+    for k in range(8 if thorough else 4):
+        up = [{"op": "data", "sid": 3, "n": rng.choice([100, 1000, 16000]), "es": False, "pad": rng.choice([-1, 5])} for _ in range(80)]
+        opener = [{"op": "wu", "sid": 1, "inc": 2000000}, {"op": "wu", "sid": 0, "inc": 2000000}]
+        rng.shuffle(opener)
+        mix = up[:2] + opener + up[2:]
+        steps = req(1) + [{"op": "hdr", "sid": 3, "fields": hdrs(3, "POST"), "es": False, "pad": -1},
+                          finish(1, kind=rng.choice(['buf', 'stream']), n=rng.choice([1000000, 1800000])), {"op": "burst", "steps": mix},
+                          {"op": "data", "sid": 3, "n": 10, "es": True, "pad": -1}, finish(3, n=100)]
+        out.append({'tag': 'updown', 'cfg': {'maxConc': 4}, 'steps': steps})
     # idle-timeout shutdown racing requests and handler completion
     for k in range(6 if thorough else 3):
-        steps = req(1) + [{"op": "wait", "ms": 25 + 5 * k}] + req(3) + [finish(1), finish(3), {"op": "wait", "ms": 40}]
-        out.append({'tag': 'idle', 'cfg': {'maxConc': 4, 'idleMs': 30}, 'steps': steps})
+        steps = req(1) + [{"op": "wait", "ms": 140 + 5 * k}] + req(3) + [finish(1), finish(3), {"op": "wait", "ms": 200}]
+        out.append({'tag': 'idle', 'cfg': {'maxConc': 4, 'idleMs': 150}, 'steps': steps})
     # request timeout (ReadTimeout) resetting streams while frames arrive
     for k in range(4 if thorough else 2):
-        steps = [{"op": "hdr", "sid": 1, "fields": hdrs(1, "POST"), "es": False, "pad": -1}, {"op": "wait", "ms": 30}] + req(3) + [finish(3), {"op": "data", "sid": 1, "n": 5, "es": True, "pad": -1}]
-        out.append({'tag': 'readtimeout', 'cfg': {'maxConc': 4, 'readMs': 20}, 'steps': steps})
+        steps = [{"op": "hdr", "sid": 1, "fields": hdrs(1, "POST"), "es": False, "pad": -1}, {"op": "wait", "ms": 130}] + req(3) + [finish(3), {"op": "data", "sid": 1, "n": 5, "es": True, "pad": -1}]
+        out.append({'tag': 'readtimeout', 'cfg': {'maxConc': 4, 'readMs': 100}, 'steps': steps})
     return out
 
 
@@ -65,7 +76,7 @@ def cli_par(ctx, thorough):
     return out
 
 
-def pool_run(ctx, exe, sub, scen, label, shards):
+def pool_run(ctx, exe, sub, scen, label, shards, procs=None, trace=True):
     """Replay with pool tracing on; returns list of pool trace files + race logs."""
     files = []
     for i in range(shards):
@@ -77,7 +88,13 @@ def pool_run(ctx, exe, sub, scen, label, shards):
 
     def one(a):
         i, p = a
-        env = dict(os.environ, H2V_POOLTRACE=p + '.pool', H2V_POOLTRACE_ID=str(i + 1))
+        env = dict(os.environ)
+        if trace:
+            # (not for the race replays: the recorder's mutex orders every pool operation of every goroutine, and with
+            # that most of what the race detector is there to see)
+            env.update(H2V_POOLTRACE=p + '.pool', H2V_POOLTRACE_ID=str(i + 1))
+        if procs:
+            env['GOMAXPROCS'] = str(procs)     # few Ps: sync.Pool hands an object released by one goroutine to the next one that asks
         pr = subprocess.run([exe, sub, '--in', p, '--out', p + '.tr'], cwd=ctx.scratch, env=env, stdout=subprocess.PIPE, stderr=subprocess.PIPE, text=True, timeout=1500)
         return p, pr
     pools, races = [], []
@@ -155,8 +172,17 @@ def run(ctx):
     rc = cli_par(ctx, thorough) * reps + cli[:1500 if thorough else 150]
     for i, s in enumerate(rs + rc):
         s = dict(s); s['id'] = i + 1
-    _, races_s = pool_run(ctx, rexe, 'srv', [dict(s, id=i + 1) for i, s in enumerate(rs)], 'rs', shards)
-    _, races_c = pool_run(ctx, rexe, 'cli', [dict(s, id=i + 1) for i, s in enumerate(rc)], 'rc', shards)
+    _, races_s = pool_run(ctx, rexe, 'srv', [dict(s, id=i + 1) for i, s in enumerate(rs)], 'rs', shards, trace=False)
+    _, races_c = pool_run(ctx, rexe, 'cli', [dict(s, id=i + 1) for i, s in enumerate(rc)], 'rc', shards, trace=False)
+    # the concurrent schedules once more on four Ps (pooled objects change hands between goroutines sooner), the bidirectional ones three times
+    par_s = [x for x in rs if x['tag'] in ('par', 'bighdr', 'idle', 'readtimeout')]
+    par_c = [x for x in rc if x['tag'] == 'par']
+    _, races_s2 = pool_run(ctx, rexe, 'srv', [dict(s, id=i + 1) for i, s in enumerate(par_s)], 'rs2', shards, procs=4, trace=False)
+    _, races_c2 = pool_run(ctx, rexe, 'cli', [dict(s, id=i + 1) for i, s in enumerate(par_c)], 'rc2', shards, procs=4, trace=False)
+    # the bidirectional ones eight times over, few processes (each keeps its pools warm), four Ps
+    ud = [x for x in rs if x['tag'] == 'updown'] * 8
+    _, races_s3 = pool_run(ctx, rexe, 'srv', [dict(s, id=i + 1) for i, s in enumerate(ud)], 'rs3', 3, procs=4, trace=False)
+    races_s, races_c = races_s + races_s2 + races_s3, races_c + races_c2
     # the whole client stack (RoundTrip, timers, Close) with callers that reuse their buffers the moment a call returns
     rr = [x for x in rtfam.extras(ctx, thorough) if x['tag'] in ('rt-stall-body', 'rt-slow-body', 'rt-close', 'rt-goaway-mix', 'rt-dialfail')] * reps
     for x in rr:
@@ -164,7 +190,13 @@ def run(ctx):
         for q in x['reqs']:
             q['bodyn'] = q['bodyn'] or 2000
             q['method'] = 'POST'
-    _, races_r = pool_run(ctx, rexe, 'rt', [dict(s, id=i + 1) for i, s in enumerate(rr)], 'rr', shards)
+    _, races_r = pool_run(ctx, rexe, 'rt', [dict(s, id=i + 1) for i, s in enumerate(rr)], 'rr', shards, trace=False)
+    # a pooled client Ctx handed to the next request while its previous owner's timer can still fire shows as a request
+    # that "times out" microseconds after it started: the symptom is a C12 clause, the cause is what C19 forbids
+    te = [x for x in rtfam.extras(ctx, thorough) if x['tag'] == 'rt-timer-edge']
+    for i, x in enumerate(te):
+        x['id'] = 3000000 + i + 1
+    rtfam.judge(ctx, te, rtfam.run_harness(ctx, te, 'rte'), {'C12:timed-out-before-its-timeout'}, label='rt (context reused while its timer is pending)')
     sites = set()
     for lg in races_s + races_c + races_r:
         sites |= race_sites(lg)
